@@ -317,7 +317,17 @@ def run_e2e(case):
             return viol, 1
         data = res.out_bytes
     else:
-        data = R.write_tabulation(R.config_read(ini))
+        tabobj = R.config_read(ini)
+        data = R.write_tabulation(tabobj)
+        # the tabulation object advertises its grid: nr, cutoff, dr (and nrho, cutoff_rho, drho) describe the grid that is written
+        cf = float(cut)
+        sf = float(st) if st is not None else cf / (n - 1)
+        props = [('nr', tabobj.nr, n, 0), ('cutoff', tabobj.cutoff, (n - 1) * sf if combo == 'nr+dr' else cf, 1e-9), ('dr', tabobj.dr, ((n - 1) * sf if combo == 'nr+dr' else cf) / (n - 1), 1e-9)]
+        if eam:
+            props += [('nrho', tabobj.nrho, n, 0), ('cutoff_rho', tabobj.cutoff_rho, (n - 1) * sf if combo == 'nr+dr' else cf, 1e-9), ('drho', tabobj.drho, ((n - 1) * sf if combo == 'nr+dr' else cf) / (n - 1), 1e-9)]
+        for pname, got, want, rel in props:
+            if not abs(got - want) <= rel * abs(want):
+                V(viol, 'e2e-property:%s' % pname, '%s %s (%s, %d, %s): tabulation.%s = %r, the grid has %r' % (tgt, combo, st, n, cut, pname, got, want))
     cutf = float(cut)
     stf = float(st) if st is not None else cutf / (n - 1)
     if tgt == 'DLPOLY':
